@@ -6,7 +6,7 @@ ID = "C14"
 OPT_QUICK_ALL = True      # every partition also in a child interpreter started with -O
 LEVEL = "exploration"
 TECHNIQUE = "complete enumeration of the five opcode tables, their service-action tables, the status table and all 256 opcode values against an independent T10 table"
-RULE = ("the service-action table of every entry of every set edited in the documented way (vendor action added, first action re-numbered, last action removed): every other entry of every set unchanged; every named entry of spc/sbc/ssc/smc/mmc, every entry of every service-action table, every SCSI_STATUS entry, every pair "
+RULE = ("every command class x 8 operation codes of all four length groups (constructor with a re-made OpCode, marshall_cdb with all fields set): refused, or a CDB of the length its first byte prescribes; the service-action table of every entry of every set edited in the documented way (vendor action added, first action re-numbered, last action removed): every other entry of every set unchanged; every named entry of spc/sbc/ssc/smc/mmc, every entry of every service-action table, every SCSI_STATUS entry, every pair "
         "of sets sharing a name, every name of any set looked up on every set (refused, or the T10 value; tables unchanged afterwards), copies (copy, deepcopy) of every entry and of a command built from it, every table walked again after each assignment of another value or type to a public attribute (opcode, cdb, page_code, result, buffers) of a command built from each entry, and init_cdb for each of the 256 opcode values, also carried by OpCode objects of every shipped name (and names of the 32-byte / variable-length commands) with the entry's own service-action table, and by objects re-pointed through the value setter from a code of each group. Non-trivial = the oracle has its own T10 value "
         "for the entry (or a length/refusal expectation for the opcode value); distinct = distinct (kind, set, name|value).")
 ASSUMPTIONS = [
@@ -36,7 +36,7 @@ def _sets():
 
 
 def partitions(tier):
-    return [["tables"], ["init_cdb"], ["lookups"], ["after_use"], ["sa_edit"]]
+    return [["tables"], ["init_cdb"], ["lookups"], ["after_use"], ["sa_edit"], ["mismatch"]]
 
 
 def t10_any(name):
@@ -216,6 +216,38 @@ def check_sa_edit(setname, key, edit):
     return out
 
 
+GROUP_CODES = (0x00, 0x28, 0xA8, 0x88, 0x5A, 0x9E, 0xA3, 0x12)
+
+
+def check_mismatch(name, code, how):
+    """a command class combined with an operation code of ANOTHER length group (constructor with a re-made OpCode, or marshall_cdb
+    with all fields set): either it is refused, or the CDB that comes out has the length the group of its first byte prescribes -
+    never a CDB whose length contradicts its own operation code"""
+    from pyscsi.pyscsi.scsi_opcode import OpCode
+    from vf import cmdspace as CS
+    from vf.spec import cdb as S
+    cls = CS.get_class(name)
+    st, key = next((st, key) for st, key in S.CLASSES[name]["tables"] if CS.get_opcode(st, key) is not None)
+    op = CS.get_opcode(st, key)
+    try:
+        if how == "constructor":
+            op2 = OpCode(op.name, code, {k: getattr(op.serviceaction, k) for k in op.serviceaction.keys})
+            kw = CS.build_kwargs(name, CS.baseline(name), ata_blocksize=512 if name in S.ATA_LBA_BYTES else None)
+            cdb = bytes(cls(op2, **kw).cdb)
+        else:
+            from vf.props import c02
+            vals = c02.base_of(name, "ones")
+            vals["opcode"] = code
+            cdb = bytes(cls.marshall_cdb(vals))
+    except Exception:   # noqa: BLE001 - refusing the combination is fine
+        return []
+    want = T.cdb_length(cdb[0]) if cdb else None
+    if not cdb or (want is not None and len(cdb) != want):
+        return [("mismatch/%s" % how, "%s with operation code %#04x (%s): a CDB of %d bytes came out (%s), the group of its first byte prescribes %s"
+                 % (name, code, how, len(cdb), cdb.hex(), want))]
+    return []
+
+
 def check_clone(setname, key):
     """copies of a table entry, and of a command built from it, carry the T10 value of the name they were taken under"""
     import copy
@@ -251,6 +283,8 @@ def run_case(case):
         return check_after_use(*case[1:])
     if kind == "sa_edit":
         return check_sa_edit(*case[1:])
+    if kind == "mismatch":
+        return check_mismatch(*case[1:])
     if kind == "op":
         return check_entry(case[1], case[2])[0]
     if kind == "sa":
@@ -331,6 +365,13 @@ def run_partition(part, tier, seed):
                     if v not in want:
                         acc.violation("lookup/table_value_after_use/%s.%s" % (s, key), "after the lookups %s.%s = %#04x, T10 assigns %s"
                                       % (s, key, v, sorted("%#04x" % x for x in want)), ["op", s, key])
+        return acc
+    if part[0] == "mismatch":
+        from vf.spec import cdb as S
+        for name in sorted(S.CLASSES):
+            for code in GROUP_CODES:
+                for how in ("constructor", "marshall_cdb"):
+                    do(["mismatch", name, code, how])
         return acc
     if part[0] == "sa_edit":
         for s_ in SETS:
